@@ -56,8 +56,8 @@ def run(pid, tier, seed, execs, mc, np=1, header=None, extra_cov=None, assumptio
     # recorded deviation (it was accepted with the deviations on) and is reported as that known finding
     accset = set(acc)
     # (executions written to exercise one recorded finding are validated on their own so that each finding is seen)
-    special = [x for x in byx if x in accset and not x.startswith("w")]
-    a2, r2_, s2 = vlib.validate_traces([(x, res[x]["events"]) for x in byx if x in accset and x.startswith("w")], MODULE, CFG,
+    special = [x for x in byx if x in accset and byx[x].get("special")]
+    a2, r2_, s2 = vlib.validate_traces([(x, res[x]["events"]) for x in byx if x in accset and not byx[x].get("special")], MODULE, CFG,
                                        header=kw["header"], tag=pid.lower() + "-faithful", max_rejects=8)
     for x in special:
         a3, r3, s3 = vlib.validate_traces([(x, res[x]["events"])], MODULE, CFG, header=kw["header"], tag=pid.lower() + "-faithful-" + x, max_rejects=1)
